@@ -68,6 +68,17 @@ def parseRawTx : List String → Option RawTx
 def parseTxs (s : String) : Option (List Tx) :=
   if s = "-" then some [] else (s.splitOn ",").mapM parseTx
 
+/-- one merge candidate `id:markable:valid:dir:txs` (`txs` as in `parseTxs`) -/
+def parseCand (s : String) : Option Cand :=
+  match s.splitOn "/" with
+  | [i, m, v, d, txs] => match i.toNat?, m.toNat?, v.toNat?, d.toNat?, parseTxs txs with
+    | some i, some m, some v, some d, some txs => some { id := i, ops := txs, dir := d, markable := m != 0, valid := v != 0 }
+    | _, _, _, _, _ => none
+  | _ => none
+
+def parseCands (s : String) : Option (List Cand) :=
+  if s = "-" then some [] else (s.splitOn ";").mapM parseCand
+
 def showTx : Tx → String
   | .put k v => s!"p{k}:{v}"
   | .del k => s!"d{k}"
@@ -278,6 +289,14 @@ def chainStep (d : Drv) (line : String) : Drv × String :=
       let r := rollbackWs d.node w
       ({ d with node := r.1 }, if r.2 then "ok" else "err committed")
     | none => bad
+  -- `find_and_merge_orthogonal` with a non-empty codebook (`validate` = 1): own operations, own direction, the
+  -- candidates in loop order with their `mark_committing` / validator verdict bits; answers the loop's results
+  -- (operations and ids sorted: the real candidate order is a `HashMap` iteration order)
+  | ["vmerge", validate, own, dir, cands] => match validate.toNat?, parseTxs own, dir.toNat?, parseCands cands with
+    | some v, some own, some dir, some cs =>
+      let a := mergeLoop (v != 0) own dir cs
+      (d, s!"txs={showList (sortStrs (a.ops.map showTx))} merged={showList (sortStrs (a.merged.map toString))} failed={showList (sortStrs (a.failed.map toString))} ndirs={a.dirs.length}")
+    | _, _, _, _ => bad
   | ["state"] => (d, showState d.node.cfg.registry d.node.chain)
   -- `validator_registry().remove(node_id)` / `register_validator(identity())` on the node's own key
   | ["unreg"] =>
